@@ -351,6 +351,14 @@ func init() {
 				al = append(al, a)
 			}
 		}
+		// a flow sample whose sampled header the packet decoder REJECTS (an ARP frame): a filtered sample is skipped by
+		// its length, not decoded and thrown away - whatever is wrong inside it cannot matter (used only with filters
+		// that list type 1; unfiltered, the datagram is not well-formed input)
+		arp := sfh.Rec("raw", 0)
+		arp.RawBytes = append([]byte{2, 0, 0, 0, 0, 1, 2, 0, 0, 0, 0, 2, 0x08, 0x06}, make([]byte, 28)...)
+		arp.HeaderLen = len(arp.RawBytes)
+		al = append(al, namedSample{"flow{arp-header}", sfh.FlowSample(0, arp)})
+		arpIdx := len(al)
 		filters := [][]uint32{{}, {1}, {2}, {3}, {1, 2}, {2, 3}, {1, 3}, {1, 2, 3}, {0}, {7}, {4413<<12 | 1}, {4294967295},
 			// numbers that are RECORD formats inside samples (flow: 1001 switch, 1002 router; counter: 4 vg, 5 vlan, 1001 processor):
 			// the filter is about sample types only and must not reach into the samples it lets through
@@ -385,6 +393,17 @@ func init() {
 				names = append(names, al[k-1].name)
 			}
 			f := filters[d[3]]
+			hasArp, lists1 := false, false
+			for _, k := range d[:3] {
+				hasArp = hasArp || k == arpIdx
+			}
+			for _, t := range f {
+				lists1 = lists1 || t == 1
+			}
+			if hasArp && !lists1 {
+				c.Skip()
+				return
+			}
 			dg := baseDG(false, ss...)
 			desc := fmt.Sprintf("%s | filter %v", strings.Join(names, " ; "), f)
 			if len(f) > 4 {
@@ -396,6 +415,10 @@ func init() {
 			}
 			// differential: unfiltered decode of the same octets, listed types removed
 			base, _, _, err := sfh.Decode(append([]byte{}, wire...), nil)
+			if err != nil && hasArp {
+				c.Outcome("undecodable sample filtered out")
+				return // no unfiltered decode to compare with: the reference tree was the oracle
+			}
 			if err != nil {
 				c.Violation("sflow:filter:unfiltered-error", err.Error(), nil)
 				return
